@@ -110,14 +110,14 @@ let run (path : string) =
         let now, btime, amt, lsr_ = zs now, zs btime, zs amt, zs lsr_ in
         let x, y, f = units_of_bits xb, units_of_bits yb, units_of_bits fb in
         let fz = z_of_zz f in
-        let m = Accrual.calculation_of_rewards (fun _ _ -> fz) now btime amt lsr_ in
+        let m = AccrualFast.calculation_of_rewards_fast (fun _ _ -> fz) now btime amt lsr_ in
         cmpf "C.class" (cls_of m) c;
         (match m with Base.Ok n -> cmpf "C.new" (sz n) nw | _ -> ());
         let secs = BinInt.Z.sub now btime in
         if c = "ok" then begin
           (* the Dec -> float64 conversions of the operands *)
-          cmpf "C.to64_x" (sz (Accrual.cmp_x lsr_)) (Z.to_string x);
-          cmpf "C.to64_y" (sz (Accrual.cmp_y secs)) (Z.to_string y);
+          cmpf "C.to64_x" (sz (AccrualFast.cmp_xf lsr_)) (Z.to_string x);
+          cmpf "C.to64_y" (sz (AccrualFast.cmp_yf secs)) (Z.to_string y);
           let res = zs nw in
           if not (BinInt.Z.eqb res BinNums.Z0) then nt := true;
           (* hypotheses on math.Pow, tested *)
